@@ -99,12 +99,53 @@ func runC10(rc *RunCtx) {
 	}
 	w := ms.W
 	nAttempts := 1 + G.Draw(3)
+	if G.Draw(3) == 0 {
+		nAttempts = 3 + G.Draw(4) // longer histories: fail, succeed on the same address, remove it again
+	}
 	anyFailed := false
+	var failedLn []mLn // listeners whose bind failed in an earlier attempt
+	// One run in four follows a script: a bind fails on address X, then X is
+	// configured successfully, then removed again.
+	script := G.Draw(4) == 0
+	if script {
+		nAttempts = 3 + G.Draw(2)
+	}
 	for at := 1; at <= nAttempts; at++ {
 		next := genCfg(G, U, good, 3)
+		forcePoison := -1
+		if script {
+			switch at {
+			case 1:
+				forcePoison = 9 + G.Draw(3) // listen-fails or address-in-use
+				if len(next.owners()) == len(good.owners()) {
+					next.Services = append(next.Services, mSvc{Listeners: []mLn{{[]string{"tcp", "udp"}[G.Draw(2)], fmt.Sprintf("127.0.0.1:%d", 9300+G.Draw(3))}}, Keys: append([]*Key(nil), U[:1]...)})
+				}
+			default:
+				forcePoison = 100 // valid
+			}
+		}
+		if len(failedLn) > 0 && (G.Draw(2) == 0 || (script && at == 2)) {
+			// come back to an address whose bind failed earlier
+			ln := failedLn[G.Draw(len(failedLn))]
+			dup := false
+			for _, o := range next.owners() {
+				_, p1, _ := net.SplitHostPort(o.ln.Addr)
+				_, p2, _ := net.SplitHostPort(ln.Addr)
+				if o.ln.Type == ln.Type && p1 == p2 {
+					dup = true
+				}
+			}
+			if !dup {
+				next.Services = append(next.Services, mSvc{Listeners: []mLn{ln}, Keys: append([]*Key(nil), U[:1+G.Draw(len(U))]...)})
+			}
+		}
 		poison := ""
 		var cleanup func()
-		switch G.Draw(12) {
+		pd := G.Draw(12)
+		if forcePoison >= 0 {
+			pd = forcePoison
+		}
+		switch pd {
 		case 0:
 			poison = "file-missing"
 		case 1:
@@ -123,6 +164,8 @@ func runC10(rc *RunCtx) {
 			poison = "bad-cipher"
 		case 9, 10:
 			poison = "listen-fails"
+		case 11:
+			poison = "address-in-use"
 		}
 		desc := poison
 		bad := mkKeyUnchecked("bad-key", "rc4-md5", "whatever")
@@ -151,12 +194,52 @@ func runC10(rc *RunCtx) {
 			w.ListenFail = func(network, addr string) error {
 				n++
 				if n-1 == j {
+					host, port, _ := net.SplitHostPort(addr)
+					if ip := net.ParseIP(host); ip != nil && !ip.IsUnspecified() {
+						failedLn = append(failedLn, mLn{network, net.JoinHostPort(host, port)})
+					}
 					return syscall.EADDRINUSE
 				}
 				return nil
 			}
 			cleanup = func() { w.ListenFail = nil }
 			desc = fmt.Sprintf("bind #%d of the reload fails with EADDRINUSE", j)
+		case "address-in-use":
+			// another process holds an address the new configuration wants
+			var cand []mLn
+			have := map[string]bool{}
+			for _, o := range good.owners() {
+				have[lnKey(o.ln)] = true
+			}
+			for _, o := range next.owners() {
+				if !have[lnKey(o.ln)] && !strings.HasPrefix(o.ln.Addr, ":") {
+					cand = append(cand, o.ln)
+				}
+			}
+			if len(cand) == 0 {
+				poison, desc = "", ""
+				break
+			}
+			ln := cand[G.Draw(len(cand))]
+			ip, port := dialIP(ln.Addr)
+			if ln.Type == "tcp" {
+				fl, err := simnet.ListenTCP("tcp", &net.TCPAddr{IP: ip, Port: port})
+				if err != nil {
+					poison, desc = "", ""
+					break
+				}
+				fl.Foreign = true
+				cleanup = func() { fl.Close() }
+			} else {
+				fs, err := w.BindUDP(&net.UDPAddr{IP: ip, Port: port})
+				if err != nil {
+					poison, desc = "", ""
+					break
+				}
+				cleanup = func() { fs.Close() }
+			}
+			failedLn = append(failedLn, ln)
+			desc = fmt.Sprintf("another socket holds %s", lnKey(ln))
 		}
 		oldFile := ms.OS.Files[ms.File]
 		ms.write(next)
